@@ -5,7 +5,12 @@
    [check] runs the same path on the model.  Hashes are sent as their rank
    among the hashes of the case (equality and order preserved).  Queue entries
    are compared as the sorted multiset of their hashes: their timestamps come
-   from the wall clock and the Go map iteration order is random. *)
+   from the wall clock and the Go map iteration order is random.
+   [RRequeue] is also what a local self announcement amounts to when the real
+   cosiHook rejects or defers it before an aggregator exists (a member finalized
+   by another snapshot, chain not broadcast, node catching up, pledging chain
+   without state): the harness drives those through cosiHook and sends the
+   batch as [RRequeue] with empty aggregator / verifier maps. *)
 From Coq Require Import List ZArith NArith Bool.
 Require Import Mixin.Base.Res.
 Require Export Mixin.Model.Cache Mixin.Model.Retire.
